@@ -177,6 +177,108 @@ def validate(ctx, module, traces, env=None, shards=4, workers=2, timeout=900, ta
 
 
 # ----------------------------------------------------------------------------------------------
+# trace mutation (self-test of the trace specifications: VERIF_TRACEMUT=1 ./check <id>)
+# ----------------------------------------------------------------------------------------------
+def _paths(x, prefix=()):
+    """all leaf / list positions of a JSON value"""
+    out = []
+    if isinstance(x, dict):
+        for k, v in x.items():
+            if k in ("ev", "exc", "why", "what"):
+                continue
+            out.extend(_paths(v, prefix + (k,)))
+    elif isinstance(x, list):
+        if x:
+            out.append(prefix + ("#list",))
+        for i, v in enumerate(x):
+            out.extend(_paths(v, prefix + (i,)))
+    else:
+        out.append(prefix)
+    return out
+
+
+def _mutate(trace, rng):
+    """one random single-field corruption of an accepted trace; returns (mutated trace, description) or None"""
+    import copy
+    t = copy.deepcopy(trace)
+    li = rng.randrange(len(t))
+    paths = _paths(t[li])
+    if not paths:
+        return None
+    path = rng.choice(paths)
+    node = t[li]
+    for k in path[:-1]:
+        node = node[k]
+    last = path[-1]
+    if last == "#list":
+        how = rng.choice(["drop", "dup", "swap"])
+        if how == "drop":
+            node.pop(rng.randrange(len(node)))
+        elif how == "dup":
+            node.append(copy.deepcopy(rng.choice(node)))
+        elif len(node) >= 2:
+            i, j = rng.sample(range(len(node)), 2)
+            if node[i] == node[j]:
+                return None
+            node[i], node[j] = node[j], node[i]
+        else:
+            return None
+        desc = "%s:%s" % (how, ".".join(map(str, path[:-1])))
+    else:
+        v = node[last]
+        if isinstance(v, bool):
+            node[last] = not v
+        elif isinstance(v, int):
+            node[last] = v + rng.choice([-1, 1, 2])
+        elif isinstance(v, str):
+            node[last] = v + "x"
+        else:
+            return None
+        desc = "set:%s" % ".".join(map(str, path))
+    return t, "%s@%s" % (desc, t[li].get("ev", "?"))
+
+
+def trace_mutation(ctx, part, accepted, per_trace=2, sample=100):
+    """corrupt single recorded fields of accepted traces and record which clause of the trace specification rejects each corruption"""
+    rng = random.Random(ctx.seed * 7919 + 13)
+    pool = accepted if len(accepted) <= sample else rng.sample(accepted, sample)
+    muts, descs = [], []
+    for tr in pool:
+        for _ in range(per_trace):
+            m = _mutate(tr, rng)
+            if m:
+                muts.append(m[0])
+                descs.append(m[1])
+    if not muts:
+        return
+    # one TLC run per corrupted trace (12 at a time): a corruption that breaks the shape of an event makes TLC stop with an evaluation
+    # error (index out of range, field missing) -- that is a rejection too ("TLC-ERROR"), but it must not take other traces with it
+    def one(k):
+        try:
+            v, _ = validate(ctx, part.trace_module, [muts[k]], env=part.trace_env, cfg=getattr(part, "trace_cfg", None),
+                            shards=1, workers=1, tag="-mut-%s-%d" % (part.name, k))
+            return v[0]
+        except MachineryError:
+            return {"event": -2, "clause": "TLC-ERROR"}
+    with ThreadPoolExecutor(max_workers=12) as ex:
+        verdicts = list(ex.map(one, range(len(muts))))
+    hist, accepted_desc = {}, {}
+    for v, d in zip(verdicts, descs):
+        if v is None:
+            key = d.split("@")[1] + ":" + d.split("@")[0].split(":")[1].split(".")[0]
+            accepted_desc[key] = accepted_desc.get(key, 0) + 1
+        else:
+            hist[v["clause"]] = hist.get(v["clause"], 0) + 1
+    out = os.path.join(VERIF, "out", "tracemut")
+    os.makedirs(out, exist_ok=True)
+    with open(os.path.join(out, "%s-%s.json" % (ctx.pid, part.name)), "w") as f:
+        json.dump({"property": ctx.pid, "part": part.name, "module": part.trace_module, "mutations": len(muts),
+                   "rejected": sum(hist.values()), "rejected_by_clause": hist, "accepted_by_field": accepted_desc}, f, indent=1, sort_keys=True)
+    ctx.say("tracemut %s/%s: %d corruptions, %d rejected by %d different clauses, %d accepted"
+            % (ctx.pid, part.name, len(muts), sum(hist.values()), len(hist), len(muts) - sum(hist.values())))
+
+
+# ----------------------------------------------------------------------------------------------
 # known findings
 # ----------------------------------------------------------------------------------------------
 def load_known(pid):
@@ -286,6 +388,8 @@ def run_property(ctx, parts, level, assumptions, level_rule, replay=None):
                                        "key": part.key(c, tr, v)})
             for c, tr in list(zip(kept, traces))[:2]:
                 samples.append({"part": part.name, **jsonable(part.sample(c, tr))})
+            if os.environ.get("VERIF_TRACEMUT"):
+                trace_mutation(ctx, part, [t for t, v in zip(traces, verdicts) if v is None])
         violations.extend(crashed)
         info["raised"] = len(crashed)
         info["wall_s"] = round(time.time() - pt0, 1)
